@@ -318,7 +318,12 @@ func CheckAnswer(set []*mocrelay.Event, fs []*mocrelay.ReqFilter, answer []*mocr
 		}
 		fls = append(fls, x)
 	}
+	mustIDs := make([]string, 0, len(mustAll))
 	for id := range mustAll {
+		mustIDs = append(mustIDs, id)
+	}
+	sort.Strings(mustIDs)
+	for _, id := range mustIDs {
 		if !seen[id] {
 			return fmt.Sprintf("answer lacks %s (created_at %d), which is among the newest matches of a filter", short(id), byID[id].CreatedAt)
 		}
